@@ -91,7 +91,7 @@ def check_time_window(R, F):
     """check_time accepts exactly the closed window [ts - fudge, ts + fudge], computed at full width (shared with C10)."""
     ct = F.fn(T + 'check_time')
     oks = [b for b, bl in enumerate(ct.blocks) if not bl['cleanup'] for st in bl['stmts'] if st['k'] == 'assign' and st['rv']['k'] == 'agg' and st['rv']['def'].endswith('Result::Ok')]
-    g = paths.dom_guards(ct, oks[0]) if len(oks) == 1 else []
+    g = paths.dom_guards(ct, oks[0], variants=False) if len(oks) == 1 else []
     NOW, TS = 'TimeSigned::to_unix_time(arg3)', 'TimeSigned::to_unix_time(arg1)'
     lo = 'Ge(%s,num::saturating_sub(%s,cast(arg2))) not in [0]' % (NOW, TS)
     hi = 'Le(%s,num::saturating_add(%s,cast(arg2))) not in [0]' % (NOW, TS)
